@@ -511,6 +511,15 @@ def special_copy_(rng, mon):
     src, _ = U.gen_tensor(rng, kind=skind, types=dst["types"] if same_size else None,
                           dtype=dst["dtype"] if (same_size and same_kind and dst["dtype"] != "bool") else None,
                           pool=U.Pool(40), **(dict(p_phys=0.8) if same_size else {}))
+    if same_size and rng.random() < 0.5 and len(dst["paxes"]) >= 2:
+        # the same pattern (renamed apart): equal physical sizes, so that the re-use rule is decided by dtype and layout
+        def sh(e):
+            if e[0] == "Phys": return ("Phys", (e[1][0] + 40, e[1][1]))
+            if e[0] == "Prod": return ("Prod", [sh(x) for x in e[1]])
+            return ("Sum", (e[1][0], sh(e[1][1]), e[1][2]))
+        n = math.prod(k for _, k in dst["paxes"])
+        src = dict(types=dst["types"], vaxes=[sh(e) for e in dst["vaxes"]], paxes=[(k + 40, m) for k, m in dst["paxes"]],
+                   default=src["default"], dtype=src["dtype"], values=U.gen_values(n, rng, "bool" if src["dtype"] == "bool" else "float"))
     case = dict(op="copy_", args=[], operands=[dst, src])
     w = U.World()
     d = U.build_tensor(dst, w); s = U.build_tensor(src, w)
@@ -768,7 +777,7 @@ def run_ops(tier, seed, violations, cov, mon):
             judge(case, exec_case(case, mon))
             if len(samples) < 4 and nontrivial(case) and (not samples or rng.random() < 0.02): samples.append(describe(case))
     for name, f in SPECIALS.items():
-        for _ in range((120 if name == "project" else 60) if quick else 800):
+        for _ in range({"project": 120, "copy_": 150}.get(name, 60) if quick else 800):
             try:
                 case, out = f(rng, mon)
             except Exception as ex:
